@@ -11,7 +11,8 @@ RULE = ('case = (solver, cost, monitor kinds, termination, program of 3-11 API o
 ASSUMPTIONS = ['monitors are initially empty; SetGenerationMonitor is exercised with new=False (history kept)',
                'costs are finite (a cost returning inf is run as a separate class for DE2\'s documented counting shortcut)',
                'in-process map only']
-CLASSES = {'programs': {'quick': 6400, 'thorough': 32000}, 'de2_inf_cost': {'quick': 192, 'thorough': 960}, 'solve_through_collapse': {'quick': 320, 'thorough': 2400}}
+CLASSES = {'programs': {'quick': 6400, 'thorough': 32000}, 'de2_inf_cost': {'quick': 192, 'thorough': 960}, 'solve_through_collapse': {'quick': 320, 'thorough': 2400},
+           'wrappers': {'quick': 1600, 'thorough': 16000}}
 MIN_EVENTS = {'quick': {'assert:c04': 15000, 'iterations': 1500, 'api_calls': 2000}}
 CASE_TIMEOUT = 120
 
@@ -79,6 +80,9 @@ def run_case(cls, idx, rng, obs):
     np.seterr(all='ignore')
     if cls == 'solve_through_collapse':
         return run_collapse(rng, obs)
+    if cls == 'wrappers':          # the scipy-style one-liners with itermon= / evalmon= / callback= / args=: the same bookkeeping, reported through the wrapper
+        from .c01 import run_wrapper
+        return run_wrapper(rng, obs, focus='c04')
     cfg = A.gen_program(rng, 'c04')
     if cls == 'de2_inf_cost':
         # DE2 without an evaluation monitor infers its evaluation count from the trial energies: a cost that legitimately
